@@ -972,10 +972,20 @@ def probe_purity(spec):
     agrid = {}                             # asset index -> grid index last set
     ahow = {}                              # ... and how: 'set' (set_timegrid) or 'setup' (a set-up that was handed the grid)
 
+    as_frame = bool(spec['opts'].get('price_frame'))
+
+    def rep(gi):
+        # with 'price_frame' the user holds ONE frame of positional prices per horizon length and uses it on every grid of that length
+        return min(k for k in range(len(Ts)) if Ts[k] == Ts[gi]) if as_frame else gi
+
+    def fresh_prices(gi, j):
+        d = _grid_prices(spec, rep(gi), j, Ts[gi])
+        return pd.DataFrame(d) if as_frame and d and Ts[gi] > 0 else d
+
     def prices(gi, j):
-        key = (gi, j)
+        key = (rep(gi), j)
         if key not in prices_used:
-            prices_used[key] = (_grid_prices(spec, gi, j, Ts[gi]), _grid_prices(spec, gi, j, Ts[gi]))
+            prices_used[key] = (fresh_prices(gi, j), fresh_prices(gi, j))
         return prices_used[key][0]
 
     def run(f):
@@ -992,7 +1002,7 @@ def probe_purity(spec):
             rec['reused'] = run(lambda: portf.setup_optim_problem(prices(gi, j), G[gi]))
             def fr():
                 pf, gs = fresh_objects()
-                return pf.setup_optim_problem(_grid_prices(spec, gi, j, Ts[gi]), gs[gi])
+                return pf.setup_optim_problem(fresh_prices(gi, j), gs[gi])
             rec['fresh'] = run(fr)
             last_pgrid = gi
             for k in range(len(portf.assets)):
@@ -1005,7 +1015,7 @@ def probe_purity(spec):
             rec['reused'] = run(lambda: portf.setup_optim_problem(prices(gi, j)))
             def fr():
                 pf, gs = fresh_objects()
-                return pf.setup_optim_problem(_grid_prices(spec, gi, j, Ts[gi]), gs[gi])
+                return pf.setup_optim_problem(fresh_prices(gi, j), gs[gi])
             rec['fresh'] = run(fr)
             # the portfolio hands its own grid to every asset: that is 'the grid set previously' of each asset from here on
             for k in range(len(portf.assets)):
@@ -1016,7 +1026,7 @@ def probe_purity(spec):
             rec['reused'] = run(lambda: portf.setup_split_optim_problem(prices(gi, j), G[gi], interval_size=st['size']))
             def fr():
                 pf, gs = fresh_objects()
-                return pf.setup_split_optim_problem(_grid_prices(spec, gi, j, Ts[gi]), gs[gi], interval_size=st['size'])
+                return pf.setup_split_optim_problem(fresh_prices(gi, j), gs[gi], interval_size=st['size'])
             rec['fresh'] = run(fr)
             last_pgrid = gi
             for k in range(len(portf.assets)):
@@ -1027,7 +1037,7 @@ def probe_purity(spec):
             rec['reused'] = run(lambda: portf.assets[k].setup_optim_problem(prices(gi, j), G[gi]))
             def fr():
                 pf, gs = fresh_objects()
-                return pf.assets[k].setup_optim_problem(_grid_prices(spec, gi, j, Ts[gi]), gs[gi])
+                return pf.assets[k].setup_optim_problem(fresh_prices(gi, j), gs[gi])
             rec['fresh'] = run(fr)
             agrid[k] = gi
             ahow[k] = 'setup'
@@ -1053,7 +1063,7 @@ def probe_purity(spec):
                     pf.assets[k].set_timegrid(gs[gi])
                 else:
                     pf.assets[k].setup_optim_problem(_grid_prices(spec, gi, 0, Ts[gi]), gs[gi])
-                return pf.assets[k].setup_optim_problem(_grid_prices(spec, gi, j, Ts[gi]))
+                return pf.assets[k].setup_optim_problem(fresh_prices(gi, j))
             rec['fresh'] = run(fr)
         elif kind == 'F':
             gi, j = st['g'], st['p']
@@ -1066,7 +1076,7 @@ def probe_purity(spec):
             def fr():
                 pf, gs = fresh_objects()
                 fw = {'I': gs[fx['g']].timepoints[fx['k']].to_pydatetime() if fx['date'] else (np.arange(Ts[fx['g']]) <= fx['k']), 'x': np.zeros(5000)}
-                return pf.setup_optim_problem(_grid_prices(spec, gi, j, Ts[gi]), gs[gi], fix_time_window=fw)
+                return pf.setup_optim_problem(fresh_prices(gi, j), gs[gi], fix_time_window=fw)
             rec['fresh'] = run(fr)
             last_pgrid = gi
             for k in range(len(portf.assets)):
@@ -1083,7 +1093,9 @@ def probe_purity(spec):
             agrid.clear(); ahow.clear(); last_pgrid = None
         o['steps'].append(rec)
     o['params_changed'] = _params_changed(portf.assets, snap)
-    o['prices_changed'] = [[list(k), kk] for k, (used, ref0) in prices_used.items() for kk in used if not np.array_equal(used[kk], ref0[kk])]
+    o['prices_changed'] = [[list(k), kk] for k, (used, ref0) in prices_used.items() for kk in used if not np.array_equal(np.asarray(used[kk]), np.asarray(ref0[kk]))]
+    o['prices_changed'] += [[list(k), 'index of the price frame'] for k, (used, ref0) in prices_used.items()
+                            if isinstance(used, pd.DataFrame) and not (type(used.index) is type(ref0.index) and used.index.equals(ref0.index))]
     return o
 
 
